@@ -232,6 +232,42 @@ fn half_open_race(strategy: cb::BreakerStrategy, with_request: bool, with_stale:
     })
 }
 
+/// (e) a probe that another rule (isolation) rejects is rolled back to Open while a stale
+/// completion (a request admitted while the breaker was Closed) decides the Half-Open phase
+fn blocked_probe_race(strategy: cb::BreakerStrategy, stale_ok: bool, second_request: bool) -> Body {
+    Arc::new(move || {
+        let log = setup(&[strategy]);
+        let stale = build().expect("closed breaker admits");
+        open_all();
+        // from now on the resource is full: one entry (the stale one) is in flight
+        sentinel_core::isolation::load_rules(vec![Arc::new(sentinel_core::isolation::Rule { id: "iso".into(), resource: RES.into(), threshold: 1, ..Default::default() })]);
+        clock::advance_ms(100);
+        let mut hs = vec![];
+        hs.push(shuttle::thread::spawn(move || build().ok()));
+        if second_request {
+            hs.push(shuttle::thread::spawn(move || build().ok()));
+        }
+        hs.push(shuttle::thread::spawn(move || {
+            if stale_ok {
+                stale.exit()
+            } else {
+                fail(&stale)
+            }
+            None
+        }));
+        let rs: Vec<Option<EntryStrongPtr>> = hs.into_iter().map(|h| h.join().unwrap()).collect();
+        let ends = check_paths(&log, St::Closed);
+        let l = log.lock().unwrap().clone();
+        let passed = rs.iter().filter(|r| r.is_some()).count();
+        if passed > 1 {
+            panic!("ORACLE: two-probes: {} requests passed; log {:?}", passed, l);
+        }
+        outcome(format!("end={:?} events={} passed={}", ends[0].1, l.len(), passed));
+        sentinel_core::isolation::clear_rules();
+        teardown(rs.into_iter().flatten().collect());
+    })
+}
+
 pub fn scenarios(thorough: bool) -> Vec<Scenario> {
     use cb::BreakerStrategy::*;
     let mut v = vec![];
@@ -248,6 +284,17 @@ pub fn scenarios(thorough: bool) -> Vec<Scenario> {
             v.push(Scenario { name: format!("closed->open:{:?}:3-completions", s), bound: 2, cap: 0, body: closed_to_open(vec![s], 3) });
             v.push(Scenario { name: format!("open->halfopen:{:?}:3-requests", s), bound: 2, cap: 0, body: open_to_half_open(vec![s], 3, false) });
             v.push(Scenario { name: format!("halfopen:{:?}:probe-fail||request||stale", s), bound: 2, cap: 0, body: half_open_race(s, true, true, false) });
+        }
+    }
+    // a probe rejected by another rule, racing with a stale completion
+    for s in [ErrorCount, SlowRequestRatio] {
+        if !thorough && s != ErrorCount {
+            continue;
+        }
+        v.push(Scenario { name: format!("blocked-probe:{:?}:request||stale-ok", s), bound: b2, cap: 0, body: blocked_probe_race(s, true, false) });
+        v.push(Scenario { name: format!("blocked-probe:{:?}:request||stale-fail", s), bound: b2, cap: 0, body: blocked_probe_race(s, false, false) });
+        if thorough {
+            v.push(Scenario { name: format!("blocked-probe:{:?}:2-requests||stale-ok", s), bound: 2, cap: 0, body: blocked_probe_race(s, true, true) });
         }
     }
     // two breakers on the resource
